@@ -68,6 +68,8 @@ fn make_bundle(j: usize) -> FluentBundleResult<FluentResource> {
     for d in 1..=j + 1 {
         src.push_str(&format!("m{} = b{}\n", d, j));
     }
+    // present in every bundle, attributes only (no value): answers a messages request at once, never a value request
+    src.push_str("ao =\n    .a = x\n");
     let res = FluentResource::try_new(src).expect("resource");
     bundle.add_resource(res).expect("add_resource");
     Ok(bundle)
@@ -155,6 +157,8 @@ type Fut<'a> = Pin<Box<dyn Future<Output = Out> + 'a>>;
 fn key_ids(api: char, d: usize) -> Vec<String> {
     if api == 'v' {
         vec![format!("m{}", d)]
+    } else if api == 'n' {
+        vec!["ao".to_string(), format!("m{}", d)]
     } else {
         // a shallower key first, the deep key last
         vec![format!("m{}", std::cmp::max(1, d / 2)), format!("m{}", d)]
@@ -184,7 +188,7 @@ fn make_fut<'a>(b: &'a Bundles<Gen>, api: char, d: usize) -> Fut<'a> {
             let r = b.format_messages(&keys, &mut errors).await;
             (
                 r.into_iter()
-                    .map(|o| o.and_then(|m| m.value.map(|c| c.into_owned())))
+                    .map(|o| o.map(|m| m.value.map(|c| c.into_owned()).unwrap_or_else(|| "<novalue>".to_string())))
                     .collect(),
                 errors,
             )
@@ -212,7 +216,7 @@ fn run_sync(b: &Bundles<Gen>, api: char, d: usize) -> Result<Out, LocalizationEr
             let r = b.format_messages_sync(&keys, &mut errors)?;
             (
                 r.into_iter()
-                    .map(|o| o.and_then(|m| m.value.map(|c| c.into_owned())))
+                    .map(|o| o.map(|m| m.value.map(|c| c.into_owned()).unwrap_or_else(|| "<novalue>".to_string())))
                     .collect(),
                 errors,
             )
@@ -258,7 +262,13 @@ fn show_done(api: char, d: usize, out: &Out) -> String {
         },
         None => "RN".to_string(),
     };
-    if ids.len() == 2 {
+    if api == 'n' {
+        // the attribute-only message is found (without a value) in the first bundle the request sees
+        let expect = if got.is_empty() { None } else { Some("<novalue>".to_string()) };
+        if answers[0] != expect {
+            extra.push_str("~attr-only-key-mismatch");
+        }
+    } else if ids.len() == 2 {
         // the shallow key is answered by the bundle at its own depth iff the request got that far
         let d2 = std::cmp::max(1, d / 2);
         let expect = if got.len() >= d2 { Some(format!("b{}", got[d2 - 1])) } else { None };
@@ -285,6 +295,7 @@ fn parse_op(k: usize, op: &str) -> Option<Op> {
                 "v" => 'v',
                 "s" => 's',
                 "m" => 'm',
+                "n" => 'n',
                 _ => return None,
             };
             if c >= k {
